@@ -65,7 +65,9 @@ func RunC16(r *report.Run, b Bins, tier string, seed int64) {
 	root := fmt.Sprintf("build/c16_%d", os.Getpid())
 	absRoot := filepath.Join(b.Verif, root)
 	os.RemoveAll(absRoot)
-	defer os.RemoveAll(absRoot)
+	if os.Getenv("VERIF_KEEP_C16") == "" {
+		defer os.RemoveAll(absRoot)
+	}
 	nLegal, runs := 120, 4
 	if tier == "thorough" {
 		nLegal, runs = 2500, 12
@@ -278,6 +280,14 @@ func RunC17Synth(r *report.Run, b Bins, tier string, seed int64) {
 	// documented-illegal definitions: rejecting them is C16's subject; but if the plugin emits stubs for one, those stubs are
 	// held to the declared options like any others
 	cases = append(cases, IllegalCases(rng, "si")...)
+	// identifier-collision inputs and imports from packages named like the generated code's own imports: whether to accept them
+	// is the generator's choice (C16), what it emits for them must bind each method to its own types
+	for _, c := range TrickyCases(rng, "st") {
+		if !strings.Contains(c.Class, "explicit-false") { // (what an option that is present with the value false means is left open)
+			cases = append(cases, c)
+		}
+	}
+	cases = append(cases, ImportNameCases(rng, "sn")...)
 	for i, c := range cases {
 		protos := c.Protos()
 		if plugin.Validate(protos) != nil {
